@@ -636,7 +636,7 @@ def _alias_param_binding(ctx):
     st = f"{AL}:run_alias_by_params"
     defs = df.all_defs(fn)
     # the positional-mode switch: the `if` whose body rebinds the keyword mapping from a zip over the signature order
-    sw = [n for n in walk_local(fn) if isinstance(n, ast.If) and any(isinstance(b_, ast.Assign) and any(isinstance(c, ast.Call) and call_name(c) == "zip" for c in ast.walk(b_.value)) for b_ in n.body)]
+    sw = [n for n in walk_local(fn) if isinstance(n, ast.If) and any(isinstance(c, ast.Call) and call_name(c) == "zip" for b_ in n.body for c in ast.walk(b_)) and not any(isinstance(a, ast.If) and any(isinstance(c, ast.Call) and call_name(c) == "zip" for b_ in a.body for c in ast.walk(b_)) for a in ancestors(n) if isinstance(a, ast.If))]
     if len(sw) != 1:
         raise AnalysisError(f"{st}: the positional-mode switch was not found ({len(sw)})")
     t = sw[0].test
@@ -653,6 +653,11 @@ def _alias_param_binding(ctx):
             if d.value is not None and d.kind == "assign":
                 exprs.append(d.value)
                 todo += [x.id for x in ast.walk(d.value) if isinstance(x, ast.Name)]
+    # (a mapping / list the test depends on may be filled by a loop instead of a comprehension: its guards count as filters)
+    for l_ in [x for x in walk_local(fn) if isinstance(x, ast.For)]:
+        fills = {t.value.id for a in ast.walk(l_) if isinstance(a, ast.Assign) for t in a.targets if isinstance(t, ast.Subscript) and isinstance(t.value, ast.Name)} | {c.func.value.id for c in ast.walk(l_) if isinstance(c, ast.Call) and isinstance(c.func, ast.Attribute) and c.func.attr in ("append", "add") and isinstance(c.func.value, ast.Name)}
+        if fills & seen_:
+            exprs += [g.test for g in ast.walk(l_) if isinstance(g, ast.If)]
     # a filter on the parameters other than the name test exempts some of them
     exempt = []
     for e in exprs:
